@@ -24,8 +24,11 @@
 (***************************************************************************)
 EXTENDS Naturals, Sequences, FiniteSets, TLC
 
-CONSTANTS MaxErrs,   \* bound on the number of errors of a program whose error list the spec does not fix
-          Faulty     \* TRUE enables defective actions (spec-level negative control: the contract must fail)
+CONSTANTS MaxErrs,   \* bound on the number of errors a rejected program has
+          Faulty,    \* TRUE enables defective actions (spec-level negative control: the contract must fail)
+          StrictSink \* TRUE: an unwritable *stdout* (-o - into a full device) must turn the exit status non-zero,
+                     \* as an unwritable FILE does.  The property's words fix the status by "compilation
+                     \* succeeded" and speak of FILE only, so the default (FALSE) leaves that one status open.
 
 VARIABLES cfg,       \* the configuration (never changes)
           pc,        \* "start" | "compile" | "run" | "wstdout" | "wfile" | "print" | "exit" | "done"
@@ -100,6 +103,10 @@ Success(c) == /\ CompileSucceeds(c)
               /\ c.mode = "run" => Eff(c) = "acc"
               /\ c.mode \in {"file", "stdout"} => Writable(c)
 
+\* Is the exit status of c decided by the property's words?  Not for a compilable program whose output goes to an
+\* unwritable stdout (unless StrictSink): the lost bytes may or may not be reported.
+ExitFixed(c) == StrictSink \/ ~(c.mode = "stdout" /\ c.path = "unwritable" /\ CompileSucceeds(c))
+
 InitFs(c) == CASE c.path \in {"none", "unwritable"} -> "none"
                [] c.path = "unwritable_device" -> "device"
                [] c.path = "absent" -> "absent"
@@ -107,9 +114,10 @@ InitFs(c) == CASE c.path \in {"none", "unwritable"} -> "none"
                [] c.path = "missing_parent" -> "noparent"
                [] c.path = "is_directory" -> "dir"
 
-\* the number of errors the compiler finds: fixed by the program class, unless --no-std turned a
-\* std-using program into a rejected one (then: one per unresolved use, at least one)
-ErrCounts(c) == IF c.pk = "rej" /\ ~(c.nostd /\ c.std) THEN {c.pn} ELSE 1..MaxErrs
+\* the number of errors the compiler finds in a rejected program: at least one.  (c.pn is the number the
+\* program of that class is *written* to have; how many the compiler reports is the compiler's business and is
+\* bound by the recording in Trace_Driver - the contract only says that each of them is printed.)
+ErrCounts(c) == 1..MaxErrs
 
 \* The emitted program is a function of the program and of the two flags that may change it - not of the sink.
 Emitted(c) == [pk |-> c.pk, pn |-> c.pn, why |-> c.why, std |-> c.std, req |-> c.req, nostd |-> c.nostd]
@@ -160,6 +168,14 @@ CompileErrN(n) == /\ pc = "compile" /\ ~CompileSucceeds(cfg)
                   /\ UNCHANGED <<fs, soprog, sorun, printed, exit>>
 CompileErr == \E n \in 1..MaxErrs : CompileErrN(n)
 
+\* A command may find out that FILE cannot be written before it has compiled anything: then the I/O error is the
+\* only error there is to print (the property does not order the two checks).
+OutputFailEarly == /\ pc = "compile" /\ cfg.mode = "file" /\ ~Writable(cfg)
+                   /\ errs' = <<"io">>
+                   /\ pc' = "print"
+                   /\ Step("OutputFailEarly")
+                   /\ UNCHANGED <<fs, chunk, soprog, sorun, printed, exit>>
+
 RunOk == /\ pc = "run" /\ Eff(cfg) = "acc"
          /\ sorun' = "all"
          /\ pc' = "exit"
@@ -178,6 +194,12 @@ WriteStdout == /\ pc = "wstdout" /\ Writable(cfg)
                /\ pc' = "exit"
                /\ Step("WriteStdout")
                /\ UNCHANGED <<fs, chunk, sorun, errs, printed, exit>>
+
+\* the bytes vanish unnoticed: allowed only where the property leaves the status open (see ExitFixed)
+WriteStdoutLost == /\ pc = "wstdout" /\ ~Writable(cfg) /\ ~StrictSink
+                   /\ pc' = "exit"
+                   /\ Step("WriteStdoutLost")
+                   /\ UNCHANGED <<fs, chunk, soprog, sorun, errs, printed, exit>>
 
 WriteStdoutFail == /\ pc = "wstdout" /\ ~Writable(cfg)
                    /\ errs' = Append(errs, "io")
@@ -223,8 +245,8 @@ BadExitZero == /\ Faulty /\ pc = "exit" /\ errs # <<>>
                /\ Step("BadExitZero")
                /\ UNCHANGED <<fs, chunk, soprog, sorun, errs, printed>>
 
-Next == \/ ParseArgs \/ CompileOk \/ CompileErr \/ RunOk \/ RunFail \/ WriteStdout
-        \/ WriteStdoutFail \/ WriteFileOk \/ WriteFileFail \/ PrintErrors \/ Exit
+Next == \/ ParseArgs \/ CompileOk \/ CompileErr \/ OutputFailEarly \/ RunOk \/ RunFail \/ WriteStdout
+        \/ WriteStdoutFail \/ WriteStdoutLost \/ WriteFileOk \/ WriteFileFail \/ PrintErrors \/ Exit
         \/ BadPartialWrite \/ BadSilentExit \/ BadExitZero
 
 Spec == Init /\ [][Next]_dvars
@@ -243,7 +265,7 @@ TypeOK == /\ cfg \in AllConfigs
           /\ \A i \in 1..Len(errs) : errs[i] \in {"compile", "lua", "io"}
 
 \* exit status 0 exactly when compilation (and, in run mode, execution) succeeded
-ExitIffSuccess == Done => ((exit = "zero") <=> Success(cfg))
+ExitIffSuccess == Done => (ExitFixed(cfg) => ((exit = "zero") <=> Success(cfg)))
 
 \* ... and prints every error otherwise (and invents none on success)
 ErrorsPrinted == Done => /\ printed = errs
